@@ -1,2 +1,34 @@
-(** C04 *)
-From Coq Require Import List.
+(** C04 — syntax errors are reported at the first token that cannot continue the input.
+    Proved here (grammars without recovery):
+      - the error token is the input token at the position reached, with its own index, id and
+        span, and exactly the tokens up to and including it were read (ANY tables);
+      - UnrecognizedEof is raised only after the whole input was read and carries the end of the
+        last token, or the default location 0 for the empty input (ANY tables);
+      - ExtraToken is never returned (validated tables);
+    Not proved yet (partial): that the consumed prefix is viable and that the error token is the
+    FIRST non-viable one (viable-prefix invariant + locality of runs).  The check decides that
+    clause per run with an independent Earley oracle on every explored input. *)
+From Coq Require Import List ZArith.
+From LV Require Import LR.Driver LR.Validator LR.Soundness LR.Completeness LR.ErrorPos LR.Main.
+Import ListNotations.
+
+Theorem C04_error_token_is_the_token_reached : forall A orc fuel w k exp s,
+  uses_recovery A = false ->
+  drive A orc fuel (map IOk w) = (RErr (PUnrecTok k exp), s) ->
+  exists u v, w = u ++ k :: v /\ npulled s = S (length u).
+Proof. intros. eapply proj1. eapply unrecognized_token_position; eauto. Qed.
+Print Assumptions C04_error_token_is_the_token_reached.
+
+Theorem C04_eof_error_after_whole_input : forall A orc fuel w loc exp s,
+  uses_recovery A = false ->
+  drive A orc fuel (map IOk w) = (RErr (PUnrecEof loc exp), s) ->
+  npulled s = length w /\ loc = last_hi w.
+Proof. intros. eapply proj1. eapply unrecognized_eof_position; eauto. Qed.
+Print Assumptions C04_eof_error_after_whole_input.
+
+Theorem C04_never_extra_token : forall A C, valid A C = true -> uses_recovery A = false ->
+  forall orc fuel w k s, Forall (tok_in_range A) w ->
+  drive A orc fuel (map IOk w) <> (RErr (PExtra k), s).
+Proof. exact no_extra_token. Qed.
+Print Assumptions C04_never_extra_token.
+
